@@ -2,6 +2,7 @@ package checks
 
 import (
 	"bytes"
+	"encoding/base64"
 	"encoding/binary"
 	"fmt"
 	"strings"
@@ -228,6 +229,14 @@ func runC14(r *mc.Run) {
 			p := &ccpb.Policy{}
 			f.set(p, rep(val(f), n))
 			add(fmt.Sprintf("length/%s=%d", f.name, n), p)
+		}
+		// the value written as TEXT (hex digits, either case; base64): bytes are bytes, a text of them is a wrongly
+		// sized other value
+		for tn, tv := range map[string][]byte{"hex-text": []byte(hexs(val(f))), "HEX-TEXT": []byte(strings.ToUpper(hexs(val(f)))), "hex-text-of-zeros": bytes.Repeat([]byte{'0'}, 2*f.len),
+			"base64-text": []byte(base64.StdEncoding.EncodeToString(val(f))), "0x-hex-text": []byte("0x" + hexs(val(f)))} {
+			p := &ccpb.Policy{}
+			f.set(p, tv)
+			add(fmt.Sprintf("length/%s=%s(%d)", f.name, tn, len(tv)), p)
 		}
 	}
 	for pos := 0; pos < 4; pos++ {
